@@ -1,0 +1,37 @@
+//! verif hook H3 (cfg emmyluals_emmylua_analyzer_rust_verif): compile-time `Send + Sync`
+//! assertions on the components of `EmmyLuaAnalysis`.  `EmmyLuaAnalysis` itself carries an
+//! `unsafe impl Send/Sync`, so asserting it would prove nothing; every component it owns is
+//! asserted here instead and rustc is the judge.  No behaviour, no items exported.
+#![allow(dead_code)]
+
+use crate::{
+    DbIndex, DiagnosticIndex, Emmyrc, JsonSchemaIndex, LuaCompilation, LuaDeclIndex,
+    LuaDependencyIndex, LuaDiagnostic, LuaFlowIndex, LuaGlobalIndex, LuaMemberIndex,
+    LuaMetatableIndex, LuaModuleIndex, LuaOperatorIndex, LuaPropertyIndex, LuaReferenceIndex,
+    LuaSignatureIndex, LuaTypeIndex, Vfs,
+};
+
+const _: fn() = || {
+    fn assert_sync<T: Sync + Send>() {}
+    // fields of EmmyLuaAnalysis
+    assert_sync::<LuaCompilation>();
+    assert_sync::<LuaDiagnostic>();
+    assert_sync::<std::sync::Arc<Emmyrc>>();
+    // fields of LuaCompilation / DbIndex (so that an error names the offending index)
+    assert_sync::<DbIndex>();
+    assert_sync::<LuaDeclIndex>();
+    assert_sync::<LuaReferenceIndex>();
+    assert_sync::<LuaTypeIndex>();
+    assert_sync::<LuaModuleIndex>();
+    assert_sync::<LuaMemberIndex>();
+    assert_sync::<LuaPropertyIndex>();
+    assert_sync::<LuaSignatureIndex>();
+    assert_sync::<DiagnosticIndex>();
+    assert_sync::<LuaOperatorIndex>();
+    assert_sync::<LuaFlowIndex>();
+    assert_sync::<Vfs>();
+    assert_sync::<LuaDependencyIndex>();
+    assert_sync::<LuaMetatableIndex>();
+    assert_sync::<LuaGlobalIndex>();
+    assert_sync::<JsonSchemaIndex>();
+};
